@@ -174,7 +174,8 @@ func (L *Layout) leaves(t types.Type, off int64, path string) []Leaf {
 		return []Leaf{{Key: "BigInt.val", Off: off, Sort: SInt, Path: path + ".val"}}
 	}
 	if isMathBigInt(t) {
-		return []Leaf{{Key: "MathBig.val", Off: off, Sort: SInt, Path: path + ".val"}}
+		// val: the mathematical value; backing (ghost): the BigInt whose inline words the header points at (0: own storage)
+		return []Leaf{{Key: "MathBig.val", Off: off, Sort: SInt, Path: path + ".val"}, {Key: "MathBig.backing", Off: off, Sort: SInt, Path: path + ".backing"}}
 	}
 	switch u := t.Underlying().(type) {
 	case *types.Struct:
